@@ -33,6 +33,12 @@ def elem_atom_formula(facts, summ, body, cond, outcome, elem_pred):
     pos = outcome_bool(outcome)
     c = strip(cond)
     if pos is None:
+        # a `match` on the element itself: the arm taken says which values the element has
+        n = norm(c)
+        if elem_pred(n) and outcome[0] in ("eq", "in", "ne"):
+            return ("p", "atom", (("val", boolsum.CPARAM, outcome),))
+        if n[0] == "cast" and n[1].startswith("IntToInt>") and elem_pred(n[2]) and outcome[0] in ("eq", "in", "ne"):
+            return ("p", "atom", (("val", ("cast", n[1], boolsum.CPARAM), outcome),))
         return None
     try:
         f = summ.term_formula(body, c)
